@@ -105,6 +105,10 @@ func (t *treePipeline) mkdir(r io.Reader, cfg *config) error {
 	rootStream, errcr := newRootGeneratorPipeline().generate(ctx, splitStream)
 	t.grower.enableValidation()
 	growStream, errcg := t.grower.grow(ctx, rootStream)
+	if cfg.dryrun {
+		errcs := t.spreader.spread(ctx, color.Output, growStream)
+		return t.handlePipelineErr(ctx, errcsl, errcr, errcg, errcs)
+	}
 	errcm := t.mkdirer.mkdir(ctx, growStream)
 	return t.handlePipelineErr(ctx, errcsl, errcr, errcg, errcm)
 }
